@@ -1,11 +1,16 @@
 import Dbg.Props.C11
 import Dbg.Model.Seq
 import Dbg.Lemmas.RcList
+import Dbg.Props.C14
+import Dbg.Props.C15
+import Dbg.Props.C17
 /-! # C12 — Reverse complement is coherent across all sequence types
 
 String-level laws (proved once on lists), the packed k-mer instance (from C10/C11), and extension
 sets (all 256 values by `decide`, with the masks extracted from lib.rs).  The instances for DnaString,
-Lmer and slices follow from their refinement theorems (C14, C17, C15) and are listed there. -/
+Lmer and slices (`C12_dnaString`, `C12_lmer`, `C12_slice`) come from their refinement theorems (C14, C17,
+C15); `C12_kmers_of_rc` states, for any two faithful containers of a string and of its reverse complement,
+that the `i`-th k-mer of the one is the reverse complement of the `(n-K-i)`-th k-mer of the other. -/
 
 namespace Kmer
 
@@ -63,3 +68,51 @@ theorem C12_exts_rc : ∀ v : Fin 256, ∀ b : Fin 4,
   decide +kernel
 
 end Compress
+
+namespace C12
+open Kmer (Cfg St)
+
+theorem rc_forms (l : List Nat) : l.reverse.map (3 - ·) = KSpec.rc l := by
+  unfold KSpec.rc; rw [List.map_reverse]; rfl
+
+/-- **C12 (DnaString).** `rc` is the reversed, complemented base vector; `rc ∘ rc` is the identity on values. -/
+theorem C12_dnaString (d : DnaStr.T) (h : DnaStr.Inv d) :
+    ∃ r, DnaStr.rc d = some r ∧ DnaStr.Inv r ∧ DnaStr.toSeq r = KSpec.rc (DnaStr.toSeq d) ∧ DnaStr.rc r = some d := by
+  obtain ⟨r, e, i, s⟩ := DnaStr.rc_spec d h
+  rw [rc_forms] at s
+  obtain ⟨rr, e2, i2, s2⟩ := DnaStr.rc_spec r i
+  rw [rc_forms, s, KSpec.rc_rc _ (DnaStr.toSeq_lt4 d h)] at s2
+  exact ⟨r, e, i, s, by rw [e2, DnaStr.repr_inj rr d i2 h s2]⟩
+
+/-- **C12 (Lmer).** for every word count -/
+theorem C12_lmer (l : Lmer.T) (h : Lmer.Inv l) :
+    ∃ r, Lmer.rc l = some r ∧ Lmer.Inv r ∧ r.n = l.n ∧ Lmer.toSeq r = KSpec.rc (Lmer.toSeq l) ∧ Lmer.rc r = some l := by
+  obtain ⟨r, e, i, n, s⟩ := Lmer.rc_spec l h
+  obtain ⟨rr, e2, i2, n2, s2⟩ := Lmer.rc_spec r i
+  rw [s, KSpec.rc_rc _ (Lmer.toSeq_lt4 l)] at s2
+  exact ⟨r, e, i, n, s, by rw [e2, Lmer.repr_inj rr l i2 h (n2.trans n) s2]⟩
+
+/-- **C12 (slices).** in either orientation, at every offset -/
+theorem C12_slice (d : DnaStr.T) (h : DnaStr.Inv d) (s : DnaStr.Slice) (hv : DnaStr.Slice.Valid d s) :
+    DnaStr.Slice.Valid d s.rc ∧ DnaStr.Slice.seq d s.rc = KSpec.rc (DnaStr.Slice.seq d s) ∧ s.rc.rc = s :=
+  ⟨(DnaStr.Slice.rc_spec d h s hv).1, (DnaStr.Slice.rc_spec d h s hv).2, DnaStr.Slice.rc_rc s⟩
+
+/-- **C12 (k-mers of the reverse complement).** For any container of a string and any container of its
+    reverse complement (of any of the types above, any k-mer configuration): the `i`-th k-mer of the
+    latter is the reverse complement of the `(n-K-i)`-th k-mer of the former. -/
+theorem C12_kmers_of_rc (c : Cfg) (hc : c.WF) (hw : c.w ∈ [8, 16, 32, 64, 128]) (v v' : KIter.Cont c) (seq : List Nat)
+    (hf : KIter.Faithful v seq) (hf' : KIter.Faithful v' (KSpec.rc seq)) (i : Nat) (hi : i + c.K ≤ seq.length) :
+    ∃ k, v.getKmer (seq.length - c.K - i) = some k ∧ v'.getKmer i = some (Kmer.rc c k) := by
+  obtain ⟨k, e, ki, kt⟩ := hf.kmer (seq.length - c.K - i) (by omega)
+  obtain ⟨k', e', ki', kt'⟩ := hf'.kmer i (by rw [KSpec.rc_length]; exact hi)
+  refine ⟨k, e, ?_⟩
+  rw [e']
+  congr 1
+  apply Kmer.toSeq_inj hc _ _ ki' (Kmer.inv_rc hc hw k)
+  rw [Kmer.toSeq_rc hc hw k, kt, kt']
+  unfold KIter.win
+  have := KSpec.rc_window seq c.K (seq.length - c.K - i) (by omega)
+  rw [this]
+  congr 2; omega
+
+end C12
